@@ -1,5 +1,6 @@
 //! C07: run the real HEX writers on generated images.
-//! stdin: one case per line "<code|eeprom> <length> <seed>"; for case number i the image is
+//! stdin: one case per line "<code|eeprom> <length> <seed> [<flash words> <eeprom bytes> <ram bytes>]" (the device figures
+//! a BuildResult carries; 0 0 0 when absent); for case number i the image is
 //! written to <dir>/<i>.bin and the file produced by the library to <dir>/<i>.hex
 //! (or <dir>/<i>.outcome containing "panic" / "err").
 use crate::util::{read_stdin, Rng};
@@ -35,9 +36,10 @@ pub fn main(args: &[String]) -> i32 {
     std::fs::create_dir_all(&dir).unwrap();
     for (i, line) in read_stdin().lines().enumerate() {
         let f: Vec<&str> = line.split_whitespace().collect();
-        if f.len() != 3 {
+        if f.len() != 3 && f.len() != 6 {
             continue;
         }
+        let fig: Vec<u32> = if f.len() == 6 { f[3..6].iter().map(|x| x.parse().unwrap()).collect() } else { vec![0, 0, 0] };
         let len: usize = f[1].parse().unwrap();
         let seed: u64 = f[2].parse().unwrap();
         let img = image(len, seed);
@@ -57,9 +59,9 @@ pub fn main(args: &[String]) -> i32 {
         let br = BuildResult {
             code: if code { img.clone() } else { vec![] },
             eeprom: if code { vec![] } else { img.clone() },
-            flash_size: 0,
-            eeprom_size: 0,
-            ram_size: 0,
+            flash_size: fig[0],
+            eeprom_size: fig[1],
+            ram_size: fig[2],
             ram_filling: 0,
             messages: vec![],
         };
@@ -75,28 +77,10 @@ pub fn main(args: &[String]) -> i32 {
             Ok(Ok(())) => {}
             Ok(Err(_)) => {
                 let _ = std::fs::remove_file(&out);
-        if i % 3 == 1 {
-            // the file exists already and is longer than what will be written (an earlier, bigger image)
-            let mut old = String::new();
-            for _ in 0..(len / 8 + 40) {
-                old.push_str(":10001000FFEEDDCCBBAA99887766554433221100F8\r\n");
-            }
-            old.push_str(":00000001FF\r\n");
-            std::fs::write(&out, old).unwrap();
-        }
                 std::fs::write(dir.join(format!("{}.outcome", i)), "err").unwrap();
             }
             Err(_) => {
                 let _ = std::fs::remove_file(&out);
-        if i % 3 == 1 {
-            // the file exists already and is longer than what will be written (an earlier, bigger image)
-            let mut old = String::new();
-            for _ in 0..(len / 8 + 40) {
-                old.push_str(":10001000FFEEDDCCBBAA99887766554433221100F8\r\n");
-            }
-            old.push_str(":00000001FF\r\n");
-            std::fs::write(&out, old).unwrap();
-        }
                 std::fs::write(dir.join(format!("{}.outcome", i)), "panic").unwrap();
             }
         }
